@@ -510,7 +510,7 @@ class Unit:
                     continue
                 eq = hm.index('=')
                 pat = re.sub(r'//[^\n]*', '', head[:eq]).strip()
-                fut = head[eq + 1:].strip()
+                fut = re.sub(r',\s*if\s+', ', if ', head[eq + 1:].strip())
                 cond = None
                 parts = _split_top(fut, mask(fut), ', if ')
                 if len(parts) == 2:
